@@ -392,6 +392,27 @@ def r4(ctx):
         rule.check(must_pass(b, [bi], via_blocks=[x for x, _ in part_ins]), "the accumulator (with its counter) is stored whenever the request keeps waiting", "multi|counter-not-stored",
                    "the request is kept waiting for more NODES packets on a path that does not store the accumulator back into active_nodes_responses: the packet "
                    "counter restarts from zero and neither `count < total` nor MAX_NODES_RESPONSES ever stops the collection", loc=b.loc(t.line))
+    # the partial state (records so far + packet counter) is only ever taken out to be carried on: a remove whose result is thrown away resets the
+    # counter and loses the records collected so far while the request is still active
+    for rbi, rt in part_rem:
+        dl = rt.dest.local
+        used = False
+        for blk in b.blocks:
+            if blk.cleanup or blk.idx not in b.live_blocks():
+                continue
+            for st_ in blk.stmts:
+                if st_.k == "a" and ((st_.rv.place is not None and st_.rv.place.local == dl) or any(o.place is not None and o.place.local == dl for o in st_.rv.ops)):
+                    used = True
+            tt = blk.term
+            if tt.k == "call" and any(a.place is not None and a.place.local == dl for a in tt.args):
+                used = True
+        if not used:
+            # discarding is what completion does; it is wrong only where the request can still be kept waiting afterwards
+            rr = b.reachable(rt.target) if rt.target is not None else set()
+            used = not any(x in rr for x, _ in reins) and not any(x in rr for x, _ in part_ins)
+        rule.check(used, "the partial state taken out of active_nodes_responses is carried on, or dropped only where the request completes", "multi|partial-discarded",
+                   "handle_rpc_response removes the partial state of a request from active_nodes_responses and discards it while the request stays active: the packet "
+                   "counter restarts (the 15-packet bound no longer holds) and the records collected so far are lost", loc=b.loc(rt.line))
     for dbi, dt in disc:
         rule.check(must_pass(b, [dbi], via_blocks=[x for x, _ in part_rem]), "discovered only after active_nodes_responses.remove(id)", "multi|partial-kept",
                    "the partial-response entry can survive completion of the request", loc=b.loc(dt.line))
